@@ -183,9 +183,7 @@ func RunC13(tier string) int {
 		if forcedWithRestoredDependants && consumed {
 			run.Nontrivial(s.Shape() + "|" + strings.Join(names, ","))
 		}
-		if i < 2 {
-			run.Sample(map[string]any{"case": i, "shape": s.Shape(), "history": env.Log})
-		}
+		run.Sample(map[string]any{"case": i, "shape": s.Shape(), "history": env.Log})
 	})
 	run.Assume("what a cache-disabled build leaves behind in the cache is not fixed by the statement: the following build of those targets is may-exec")
 	return run.Finish()
